@@ -223,7 +223,20 @@ func genFwdParams(r *rng) []tokIE {
 		v := uint8(r.intn(4))
 		fp = append(fp, tokIE{fmt.Sprintf("dstif:%d", v), ie.NewDestinationInterface(v)})
 	}
-	if r.chance(80) {
+	if r.chance(7) {
+		// Outer Header Creation carrying a C-TAG / S-TAG (TS 29.244 8.2.56): outside the forms gtp5g supports; the driver
+		// must skip or refuse it, not fault on it
+		var pay []byte
+		switch r.intn(3) {
+		case 0:
+			pay = append([]byte{0x01, 0x40}, r.bytes(4+4+3)...)
+		case 1:
+			pay = append([]byte{0x01, 0x80}, r.bytes(4+4+3)...)
+		default:
+			pay = append([]byte{0x00, 0x40}, r.bytes(3+r.intn(2))...)
+		}
+		fp = append(fp, tokIE{"ohctag:" + hex.EncodeToString(pay), ie.New(ie.OuterHeaderCreation, pay)})
+	} else if r.chance(80) {
 		desc := []uint16{0x0100, 0x0400, 0x1000, 0x0500}[r.intn(4)]
 		teid, ip, port := uint32(r.bits(32)), ip4(r), uint16(r.bits(16))
 		fp = append(fp, tokIE{fmt.Sprintf("ohc:%04x/%08x/%s/%d", desc, teid, hex.EncodeToString(ip), port),
@@ -507,6 +520,74 @@ func runDrv(c *ctx) {
 				e.reqs()
 			}
 			c.emit("%s", line)
+		}
+		// the same rule IE with its content damaged (truncated, bytes flipped, lengths changed …): whatever arrives, the
+		// driver's walk over it must refuse or skip, never fault (C07, layer 2 on the gtp5g path)
+		if r.chance(40) {
+			var grp *ie.IE
+			switch kind + "." + op {
+			case "pdr.create":
+				grp = ie.NewCreatePDR(ies...)
+			case "pdr.update":
+				grp = ie.NewUpdatePDR(ies...)
+			case "far.create":
+				grp = ie.NewCreateFAR(ies...)
+			case "far.update":
+				grp = ie.NewUpdateFAR(ies...)
+			case "qer.create":
+				grp = ie.NewCreateQER(ies...)
+			case "qer.update":
+				grp = ie.NewUpdateQER(ies...)
+			case "urr.create":
+				grp = ie.NewCreateURR(ies...)
+			case "urr.update":
+				grp = ie.NewUpdateURR(ies...)
+			case "bar.create":
+				grp = ie.NewCreateBAR(ies...)
+			case "bar.update":
+				grp = ie.NewUpdateBARWithinSessionModificationRequest(ies...)
+			}
+			if b, err := grp.Marshal(); err == nil && len(b) > 4 {
+				pay := mutate(r, b[4:])
+				x := ie.New(grp.Type, pay)
+				c.count("damaged." + kind)
+				e.k.mu.Lock()
+				e.k.objs = map[string][]simAttr{}
+				e.k.mu.Unlock()
+				res := guard(func() string {
+					var err error
+					switch kind + "." + op {
+					case "pdr.create":
+						err = e.g.CreatePDR(seid, x)
+					case "pdr.update":
+						err = e.g.UpdatePDR(seid, x)
+					case "far.create":
+						err = e.g.CreateFAR(seid, x)
+					case "far.update":
+						err = e.g.UpdateFAR(seid, x)
+					case "qer.create":
+						err = e.g.CreateQER(seid, x)
+					case "qer.update":
+						err = e.g.UpdateQER(seid, x)
+					case "urr.create":
+						err = e.g.CreateURR(seid, x)
+					case "urr.update":
+						_, err = e.g.UpdateURR(seid, x)
+					case "bar.create":
+						err = e.g.CreateBAR(seid, x)
+					case "bar.update":
+						err = e.g.UpdateBAR(seid, x)
+					}
+					return resStr(err)
+				})
+				e.reqs()
+				if kind == "urr" {
+					// whatever got registered with the periodic server (under whatever id the damaged IE carried) goes again
+					perio.VerifClear(forwarder.VerifPerio(e.g))
+					e.reqs()
+				}
+				c.emit("T drvmal %s.%s %x %s = %s", kind, op, seid, hexOrDash(pay), res)
+			}
 		}
 	}
 }
